@@ -59,7 +59,7 @@ def assigned_names(nodes):
 class ExecCore(object):
     """statement level; expression level and calls are mixed in by exec.py"""
 
-    FEAS_TIMEOUT_MS = 1500
+    FEAS_TIMEOUT_MS = 250
 
     def __init__(self, engine, fi, contract):
         self.eng, self.fi, self.contract = engine, fi, contract
@@ -69,6 +69,7 @@ class ExecCore(object):
         self.raise_sites = {}
         self.loop_ordinals = {}
         self.call_ordinals = {}
+        self.comp_ordinals = {}
         self.inlined = set()
         self.used_contracts = set()
         self.npaths = 0
@@ -299,7 +300,10 @@ class ExecCore(object):
         """-> (normal states, raise outcomes)"""
         if isinstance(tgt, ast.Name):
             lt = self.contract.local_types.get(tgt.id) if self.contract else None
-            if lt is not None and isinstance(v.ty, Ty.TAny):
+            if lt is not None:
+                from .execexpr import compat
+                if not compat(v.ty, lt):
+                    self.oblige(st, shape(st, v.term, lt), 'localtype[%s]' % tgt.id, 'fieldtype')
                 v = SV(v.term, lt, v.py, v.has_py)
             st.env[tgt.id] = v
             return [st], []
